@@ -594,6 +594,8 @@ def build_problem(case, scal):
                                       maxiter=case.get('maxiter', 400))
     if opt == 'COBYLA':
         p.driver.opt_settings['catol'] = TOL_OPT
+    for key, val in case.get('opt_settings', {}).items():
+        p.driver.opt_settings[key] = val
     p.setup()
     i = 0
     for dv in case['dvs']:
@@ -830,6 +832,52 @@ def fd_consistent(p, cap, xd):
 
 def run_one(case, scal, dry=False):
     return run_scaling(case, scal, dry)[0]
+
+
+GLOBAL_OPTS = ('shgo', 'differential_evolution')
+
+
+def run_global(case, scal):
+    """The global optimizers do not go through `scipy.optimize.minimize`: the driver imports them from
+    scipy.optimize when it runs, so that attribute is wrapped to see the result scipy returns.  Only
+    the model-state clauses are judged (model left at the reported design, feasible)."""
+    import scipy.optimize as sopt
+    res = {}
+    name = case['opt']
+    orig = getattr(sopt, name)
+    got = {}
+
+    def wrapped(*a, **kw):
+        got['res'] = orig(*a, **kw)
+        return got['res']
+    with warnings.catch_warnings():
+        warnings.simplefilter('ignore')
+        setattr(sopt, name, wrapped)
+        try:
+            p = build_problem(case, scal)
+            with contextlib.redirect_stdout(io.StringIO()):
+                p.run_driver()
+        except Exception as e:
+            return {'error': type(e).__name__, 'msg': str(e)[:160], 'called': 'res' in got}
+        finally:
+            setattr(sopt, name, orig)
+        if 'res' not in got:
+            return {'error': 'NotCalled', 'msg': 'scipy.optimize.%s was not called' % name,
+                    'called': False}
+        res['success'] = bool(p.driver.result.success) and not p.driver.fail
+        res['message'] = str(getattr(got['res'], 'message', ''))[:80]
+        xd = np.asarray(got['res'].x, dtype=float).ravel()
+        if not np.all(np.isfinite(xd)):
+            return {'error': 'NonFinite', 'msg': 'non-finite result', 'called': True}
+        res['xd'] = rats(xd.tolist())
+        res['x_model'] = rats(np.concatenate(
+            [np.asarray(p.get_val(dv['name'])).ravel() for dv in case['dvs']]).tolist())
+        res['outs'] = {o['name']: rats(np.asarray(p.get_val(o['name'])).ravel().tolist())
+                       for o in case['outs']}
+        # the objective left in the model against the objective of the reported design
+        res['f_model'] = rat(float(np.ravel(p.get_val('f'))[0]))
+        res['nfev'] = int(p.driver.iter_count)
+    return res
 
 
 def run_scaling(case, scal, dry=False):
@@ -1449,6 +1497,10 @@ class C21(Property):
                 add_stages(rng, case, rng.choice([1, 2]))
                 yield case
                 continue
+            if k in (len(head), len(head) + 1) or (k > len(head) + 1 and rng.random() < 0.05):
+                # global optimizers (no scipy.optimize.minimize): model-state clauses only
+                yield gen_global_case(rng, 'shgo' if k % 2 == 0 else 'differential_evolution')
+                continue
             r = rng.random()
             opt = 'SLSQP' if r < 0.5 else ('COBYLA' if r < 0.75 else 'trust-constr')
             case = gen_case(rng, opt)
@@ -1465,6 +1517,8 @@ class C21(Property):
 
     # -- real code ------------------------------------------------------------------------------------
     def run_impl(self, case):
+        if case['opt'] in GLOBAL_OPTS:
+            return {'runs': [run_global(case, sc) for sc in case['scalings']]}
         # one Problem per driver scaling, run once per stage; flat list, scaling-major
         return {'runs': [r for sc in case['scalings'] for r in run_scaling(case, sc)]}
 
@@ -1495,6 +1549,12 @@ class C21(Property):
         dev = max(abs(a - b) / max(1.0, abs(b)) for a, b in zip(xmd, xd))
         if dev > TOL_AT:
             fails.append({'clause': 'at_x', 'what': 'model is not at result.x', 'deviation': dev})
+        elif 'f_model' in r:
+            fx = float(ex.f(unscale_x(case, scal, [unrat(v) for v in r['xd']])))
+            fm = float(unrat(r['f_model']))
+            if abs(fx - fm) > 1e-6 * max(1.0, abs(fx)):
+                fails.append({'clause': 'at_x', 'what': 'objective left in the model is not the '
+                              'objective of result.x', 'deviation': abs(fx - fm)})
         # (2) every element of every constraint within its bounds, from get_val
         worst = None
         for ci, con in enumerate(case['cons']):
@@ -1693,6 +1753,8 @@ class C21(Property):
         v = self.variant()
         style = 'old' if case['opt'] in OLD_STYLE else 'new'
         reqs = []
+        if case['opt'] in GLOBAL_OPTS:
+            return reqs       # no captured minimize arguments: judged by the direct oracle only
         for si_, k_, sc, case, r in self.instances(case, impl):
             ex = Exact(case)
             probes = self.probes_exact(case, sc, r)
@@ -1971,6 +2033,51 @@ def add_stages(rng, case, nst):
             st['x0'] = rats(feasible_start(rng, ck))
     for ck in stage_cases(case)[1:]:
         Exact(ck).check_certificate()
+
+
+def gen_global_case(rng, opt):
+    """Small strictly convex QP for a global optimizer: finite box on every variable (shgo and
+    differential_evolution need one), shgo with a 2-element constraint carrying a non-uniform
+    per-element bound pattern around a strictly feasible design, differential_evolution
+    unconstrained.  Small budgets and a fixed seed keep a run well below a second."""
+    n = rng.choice([2, 3])
+    Q = spd(rng, n)
+    xs = [rng.choice([F(k, 4) for k in range(-6, 7)]) for _ in range(n)]
+    c = [-sum(F(Q[i][j]) * xs[j] for j in range(n)) + rng.choice(DY) for i in range(n)]
+    box = rng.choice(['scalar', 'array'])
+    lo = [F(-4)] * n if box == 'scalar' else [F(-4) - rng.choice([0, 1]) for _ in range(n)]
+    hi = [F(4)] * n if box == 'scalar' else [F(4) + rng.choice([0, 1]) for _ in range(n)]
+    dvs = [{'name': 'x', 'size': n, 'units': [None, None],
+            'lower': rat(lo[0]) if box == 'scalar' else rats(lo),
+            'upper': rat(hi[0]) if box == 'scalar' else rats(hi)}]
+    rows, ds = [], []
+    for _ in range(2):
+        while True:
+            row = [rng.choice([-2, -1, 0, 1, 2]) for _ in range(n)]
+            if any(row):
+                break
+        rows.append(row)
+        ds.append(rng.choice(DY))
+    outs = [{'name': 'g1', 'rows': rows, 'd': rats(ds), 'phi': ['lin', 'lin'], 'units': [None, None]}]
+    cons = []
+    if opt == 'shgo':
+        gv = [sum(F(a) * x for a, x in zip(row, xs)) + d for row, d in zip(rows, ds)]
+        pats = rng.choice([('lo', 'hi'), ('hi', 'lo'), ('lo', 'both'), ('both', 'hi'), ('hi', 'both')])
+        low = [gv[j] - rng.choice(SLACKS) if pats[j] in ('lo', 'both') else None for j in range(2)]
+        upp = [gv[j] + rng.choice(SLACKS) if pats[j] in ('hi', 'both') else None for j in range(2)]
+        cons = [{'out': 'g1', 'alias': None, 'indices': None, 'equals': None, 'linear': False,
+                 'lower': [None if v is None else rat(v) for v in low],
+                 'upper': [None if v is None else rat(v) for v in upp]}]
+    x0 = [rng.choice([F(k, 2) for k in range(-4, 5)]) for _ in range(n)]
+    case = {'opt': opt, 'n': n, 'Q': Q, 'c': rats(c), 'dvs': dvs, 'outs': outs, 'cons': cons,
+            'obj': {'units': [None, None]}, 'cert': None, 'x0': rats(x0), 'probes': [],
+            'maxiter': 60,
+            'opt_settings': ({'popsize': 6, 'seed': rng.randint(1, 1000), 'tol': 0.01}
+                             if opt == 'differential_evolution' else {})}
+    case['scalings'] = [{'dvs': [{}], 'cons': [{} for _ in cons], 'obj': {}},
+                        {'dvs': [gen_scaling(rng, n, F(1))], 'cons': [gen_scaling(rng, 2, F(1)) for _ in cons],
+                         'obj': gen_scaling(rng, 1, F(1))}]
+    return case
 
 
 def mutate_negative(rng, case):
